@@ -37,7 +37,7 @@ func TestMain(m *testing.M) {
 	} else {
 		_, _ = logging.Init(slog.LevelError+4, logging.EncodingLogfmt, logging.WithOutput(io.Discard))
 	}
-	evid.Rule("inside a synctest bubble one writer goroutine performs 2–4 DBWriter.Write calls to 1–2 days of one interface (the first day already holds a block) while one reader runs an engine query with the time label (1–2 workers, low-memory on/off) or the interface listing; " +
+	evid.Rule("inside a synctest bubble one writer goroutine performs 2–4 DBWriter.Write calls to 1–2 days of one interface (the first day already holds a block) while one reader runs an engine query with the time label (1–2 workers, low-memory on/off) or the interface listing, over a range that ends behind every write-out, on the pre-existing block, or on / 150 s after one of the write-outs; " +
 		"both park at step points compiled into the file operations of goProbe (build tag verif: column file open/read/write, metadata open, temporary metadata creation, metadata rename, directory rename, directory listings) and a cooperative scheduler built on synctest.Wait releases one parked goroutine at a time following a rapid-drawn schedule (phased: run the reader to its k-th step, then the writer for m steps, …, and uniform choices); " +
 		"oracle: the reader returns no error and reports no corrupted block; per day the block timestamps in the result are a prefix of that day's write-outs containing every write-out that completed before the query started and none that started after it finished; the rows of every visible block equal the model; the listing equals the sum of such a prefix; " +
 		"non-trivial = at least one writer step executed between the reader's first and last step; distinct by (history, reader, schedule)")
@@ -128,6 +128,17 @@ func TestC30Snapshot(tt *testing.T) {
 		readerDelay := rapid.IntRange(0, 30).Draw(t, "readerStartsAfter")
 		// excluding mode for the open finding C30-F28: at most one directory rename while the reader is active
 		excluding := rapid.Bool().Draw(t, "excludeSecondRename")
+		// upper bound of the requested range: behind everything, on the pre-existing block, on / shortly after a write-out
+		var lastBound int64
+		boundKind := rapid.SampledFrom([]string{"open", "open", "open", "pre", "at-write-out", "after-write-out"}).Draw(t, "bound")
+		switch boundKind {
+		case "pre":
+			lastBound = pre.Ts
+		case "at-write-out":
+			lastBound = outs[rapid.IntRange(0, nw-1).Draw(t, "boundAt")].block.Ts
+		case "after-write-out":
+			lastBound = outs[rapid.IntRange(0, nw-1).Draw(t, "boundAt")].block.Ts + 150
+		}
 
 		dir, err := os.MkdirTemp(os.Getenv("VERIF_WORK"), "c30-")
 		if err != nil {
@@ -140,7 +151,7 @@ func TestC30Snapshot(tt *testing.T) {
 
 		var oc outcome
 		synctest.Test(tt, func(_ *testing.T) {
-			oc = runBubble(dir, pre, outs, readerKind, units, lowmem, phases, choices, readerDelay, excluding)
+			oc = runBubble(dir, pre, outs, readerKind, units, lowmem, phases, choices, readerDelay, excluding, lastBound)
 		})
 		var hist []string
 		hist = append(hist, fmt.Sprintf("pre-existing block %d", pre.Ts))
@@ -148,9 +159,12 @@ func TestC30Snapshot(tt *testing.T) {
 			hist = append(hist, fmt.Sprintf("write-out #%d ts=%d (day %d) %d flows [started at tick %d, done at tick %d, err %v]", i, o.block.Ts, (o.block.Ts-day0)/86400, len(o.block.Flows), o.startTick, o.doneTick, o.err))
 		}
 		nt := oc.writerStepsInside > 0
-		cls := []string{"reader:" + readerKind, fmt.Sprintf("units:%d", units), fmt.Sprintf("lowmem:%v", lowmem)}
+		cls := []string{"reader:" + readerKind, fmt.Sprintf("units:%d", units), fmt.Sprintf("lowmem:%v", lowmem), "range-end:" + boundKind}
 		if nt {
 			cls = append(cls, "writer-steps-inside-query")
+		}
+		if lastBound > 0 {
+			hist = append(hist, fmt.Sprintf("requested range ends at %d", lastBound))
 		}
 		evid.Case(fmt.Sprintf("%v|%s|%d|%v|%v", hist, readerKind, units, lowmem, oc.trace), nt, cls...)
 		if evid.WantSample(nt) {
@@ -180,7 +194,12 @@ func mkFlow(w, f int) model.Flow {
 	return fl
 }
 
-func runBubble(dir string, pre model.Block, outs []*wout, readerKind string, units int, lowmem bool, phases []phase, choices []int, readerDelay int, excluding bool) (oc outcome) {
+func runBubble(dir string, pre model.Block, outs []*wout, readerKind string, units int, lowmem bool, phases []phase, choices []int, readerDelay int, excluding bool, bound ...int64) (oc outcome) {
+	// upper bound of the requested range (default: far behind every write-out)
+	lastBound := day0 + 10*86400
+	if len(bound) > 0 && bound[0] > 0 {
+		lastBound = bound[0]
+	}
 	s := &scheduler{}
 	verifhook.SetStepFn(s.step)
 	defer verifhook.SetStepFn(nil)
@@ -229,7 +248,7 @@ func runBubble(dir string, pre model.Block, outs []*wout, readerKind string, uni
 		mu.Lock()
 		qStartTick = tick
 		mu.Unlock()
-		first, last := day0-1000, day0+10*86400
+		first, last := day0-1000, lastBound
 		if readerKind == "query" {
 			args := query.Args{Query: "time,sip,dip,dport,proto", Ifaces: "eth0", First: fmt.Sprint(first), Last: fmt.Sprint(last), Format: "json", MaxMemPct: 100,
 				NumResults: 1 << 40, LowMem: lowmem, DNSResolution: query.DNSResolution{Timeout: time.Second, MaxRows: 25}}
@@ -383,7 +402,7 @@ func runBubble(dir string, pre model.Block, outs []*wout, readerKind string, uni
 			oc.failSig, oc.failMsg = "C30:blocks-corrupted", fmt.Sprintf("%d blocks reported corrupted because of the concurrent write-out", st.BlocksCorrupted)
 			return
 		}
-		spec := model.QuerySpec{Ifaces: []string{"eth0"}, First: day0 - 1000, Last: day0 + 10*86400, Attrs: []string{"sip", "dip", "dport", "proto"}, Time: true}
+		spec := model.QuerySpec{Ifaces: []string{"eth0"}, First: day0 - 1000, Last: lastBound, Attrs: []string{"sip", "dip", "dport", "proto"}, Time: true}
 		got, bad := qgen.RowsOf(res.Result, spec)
 		if bad != "" {
 			oc.failSig, oc.failMsg = "C30:row-shape", bad
@@ -426,6 +445,10 @@ func runBubble(dir string, pre model.Block, outs []*wout, readerKind string, uni
 			gap := false
 			for _, i := range idx {
 				o := outs[i]
+				if o.block.Ts > lastBound {
+					// outside the requested range: a row of it would have been reported as C30:damaged-row above
+					continue
+				}
 				v, msg := visible(o.block)
 				if msg != "" {
 					oc.failSig, oc.failMsg = "C30:partial-block", msg
@@ -483,6 +506,9 @@ func runBubble(dir string, pre model.Block, outs []*wout, readerKind string, uni
 				}
 				cc, vv, dd := c, v4, drops
 				for _, i := range idx[:k] {
+					if outs[i].block.Ts > lastBound {
+						continue // outside the requested range whatever the snapshot is
+					}
 					for _, f := range outs[i].block.Flows {
 						cc.Add(f)
 						vv++
